@@ -15,6 +15,10 @@
 //   single-stepped (x86 trap flag): after every instruction that changed its slot a reader THREAD calls value() -
 //   i.e. the counting thread is pre-empted between its plain stores.  Logged like "conc" (call / ret events).
 //
+// scenario "dtor" (vsched): nw threads count into counter X and exit; then thread A destroys X WHILE thread B constructs
+//   counter Y of the same type, reads it, counts `prog` into it and reads it again; at quiescence Y is read (final) and
+//   a third counter Z is constructed and read (fresh).  Only Y's calls are logged as call / ret (the monitor judges Y).
+//
 // scenario "conc": counting threads and a reader under vsched; call / ret events are schedule points.
 //   param prog: per-thread value lists ('_' between threads, '.' between values), pre: values a thread
 //   counts and exits before (dead thread whose slot is re-used), nr: number of value() calls of the reader
@@ -659,10 +663,53 @@ void scenario_tear(const vrun::Params&) {
 }
 #endif
 
+// ---- destruction of one counter concurrent with construction / counting of another (vsched) ------------------
+void scenario_dtor(const vrun::Params& p) {
+  std::string kind = p.str("kind", "adder");
+  long ext = p.get("ext", 3);
+  auto fam = make_family(kind);
+  if (!fam) return;
+  long nw = p.get("nw", 2);
+  std::vector<long> prog;
+  for (auto& x : split(p.str("prog", "2.1"), '.')) prog.push_back(expand(kind, atol(x.c_str()), ext));
+  fam->create(1);
+  vrun::begin();
+  for (long i = 0; i < nw; i++) { // the slots the destructor will walk over (their threads are dead by then)
+    std::thread t([&] { fam->count(1, expand(kind, 2, ext)); });
+    t.join();
+  }
+  {
+    std::thread a([&] {
+      vsched::eventf(true, "\"k\":\"dcall\"");
+      fam->destroy(1);
+      vsched::eventf(true, "\"k\":\"dret\"");
+    });
+    std::thread b([&] {
+      fam->create(2);
+      for (size_t i = 0; i <= prog.size(); i++) {
+        vsched::eventf(true, "\"k\":\"call\",\"op\":\"value\",\"v\":0");
+        Obs r = fam->value1(2, 0);
+        vsched::eventf(true, "\"k\":\"ret\",\"op\":\"value\",\"form\":0,%s", obs_json(r).c_str());
+        if (i == prog.size()) break;
+        vsched::eventf(true, "\"k\":\"call\",\"op\":\"count\",\"v\":%ld", prog[i]);
+        fam->count(2, prog[i]);
+        vsched::eventf(true, "\"k\":\"ret\",\"op\":\"count\",\"v\":%ld", prog[i]);
+      }
+    });
+    a.join();
+    b.join();
+  }
+  vsched::eventf(false, "\"k\":\"final\",%s", obs_json(fam->value1(2, 0)).c_str());
+  fam->create(3);
+  vsched::eventf(false, "\"k\":\"fresh\",%s", obs_json(fam->value1(3, 0)).c_str());
+  vsched::finish();
+}
+
 struct Reg {
   Reg() {
     vrun::add("hist", scenario_hist, "kind=adder,ext=3,h=S1.C1.K1:1:1.V1");
     vrun::add("tear", scenario_tear, "kind=maxer,ext=3,old=2,nw=1");
+    vrun::add("dtor", scenario_dtor, "kind=adder,ext=3,nw=2,prog=2.1");
     vrun::add("conc", scenario_conc, "kind=adder,ext=3,prog=1.1_1,pre=,nr=2");
   }
 } reg;
